@@ -417,12 +417,21 @@ def apply_mod_mapping(match, molecule, graph_out, mol_to_out, out_to_mol):
     for mod_idx in modification:
         if not node_should_exist(modification, mod_idx):
             # Node does not exist yet.
+            new_attrs = dict(modification.nodes[mod_idx])
             if not graph_out.nodes:
                 out_idx = 0
             else:
                 out_idx = max(graph_out) + 1
+                # The new particle belongs to the residue that was added
+                # last. Without a residue number and charge group of its own,
+                # the next block would be numbered starting from the defaults
+                # again (see merge_molecule).
+                last_node = graph_out.nodes[out_idx - 1]
+                for attr in ('resid', 'charge_group'):
+                    if attr not in new_attrs and attr in last_node:
+                        new_attrs[attr] = last_node[attr]
             mod_to_out[mod_idx] = out_idx
-            graph_out.add_node(out_idx, **modification.nodes[mod_idx])
+            graph_out.add_node(out_idx, **new_attrs)
         else:
             # Node should already exist
             # We need to find the out_index of this node. Since the
